@@ -133,6 +133,9 @@ fn check_with_faults(h: &History, kf: &KnownFindings, st: &mut Stats, enumerate_
     }
     if interesting {
         st.nt_hash(hash_value(&h.json()));
+        if st.want_sample() {
+            st.sample(h.json());
+        }
     }
     if recs.iter().any(|r| r.outcome == Outcome::Resp("SessionExpired".into())) {
         st.class("session-expired-reached");
